@@ -530,7 +530,23 @@ func c08SmudgePassesAllNonPointers(c *Ctx) {
 			}
 			good := true
 			where := ""
-			for _, ex := range RunCount(CountQuery{Fn: fn, Entry: entry, Event: func(in ssa.Instruction) CSet {
+			// leaving because the status line could not be written to Git (broken pipe) is an environment fault,
+			// not a decision about the content: those edges are not followed
+			pipeCut := map[Edge]bool{}
+			for _, pb := range fn.Blocks {
+				if pif, ok := lastInstr(pb).(*ssa.If); ok {
+					if pe, tmn, isChk := IsErrNilCheck(pif.Cond); isChk {
+						if pc, _, isRes := CallResult(pe); isRes && strings.HasSuffix(CalleeName(pc.Common()), ".WriteStatus") {
+							if tmn {
+								pipeCut[Edge{pb, 1}] = true
+							} else {
+								pipeCut[Edge{pb, 0}] = true
+							}
+						}
+					}
+				}
+			}
+			for _, ex := range RunCount(CountQuery{Fn: fn, Entry: entry, Cut: pipeCut, Event: func(in ssa.Instruction) CSet {
 				if sc := AsCall(in); sc != nil && nameIn(CalleeName(sc), []string{"tools.Spool", "io.Copy"}) {
 					return C1
 				}
